@@ -334,6 +334,8 @@ class Tr:
                 return [], f"(pyRoundFloat {t})", ("exc", "int")
             if f.id == "int" and len(node.args) == 1:
                 pre, t, ty = self.expr(node.args[0])
+                if ty == "int":
+                    return pre, t, "int"          # int(<an int or IntEnum member>) is that number
                 if ty != "str" or pre:
                     raise Untranslatable("int(non-str)")
                 return [], f"(Lit.pyIntE {t})", ("exc", "int")
@@ -1569,6 +1571,15 @@ class TrCodec:
         return f"{b}{self.n}"
 
     def const(self, node):
+        import types
+        val = None
+        # <module alias>.CONSTANT
+        if isinstance(node, ast.Attribute) and isinstance(node.value, ast.Name) and node.value.id not in self.env \
+                and isinstance(self.globals.get(node.value.id), types.ModuleType):
+            val = getattr(self.globals[node.value.id], node.attr, None)
+            if isinstance(val, int) and not isinstance(val, bool):
+                return lean_int(int(val)), "int"
+            return None
         if isinstance(node, ast.Name) and node.id not in self.env and node.id in self.globals:
             val = self.globals[node.id]
             if isinstance(val, bool):
